@@ -46,10 +46,10 @@ def carg(a):
 
 def strings(rng):
     base = ['', '.gz', 'gz', 'a.gz', 'a.GZ', 'a.gz ', 'a.gzz', 'http://x', 'https://x.gz', 'http:/x', 'HTTP://x', 'ftp://x', 'xhttp://', 'https://', 'http://',
-            'a/b/c.json.gz', 'é.gz', 'x.g', '.g', 'z', 'https:/', 'http//', 'file.gz.', '..gz']
+            'a/b/c.json.gz', 'é.gz', 'x.g', '.g', 'z', 'https:/', 'http//', 'file.gz.', '..gz', 'run#2.csv.gz', 'a?b.gz', 'x.gz?raw=true', 'v;1.gz', 'x.gz#f']
     for _ in range(150):
         n = rng.randint(0, 9)
-        base.append(''.join(rng.choice('.gzhtps:/aé') for _ in range(n)))
+        base.append(''.join(rng.choice('.gzhtps:/aé#?;') for _ in range(n)))
     return base
 
 
